@@ -34,8 +34,9 @@ class Topo:
     """shards: list of lists of roles ('P' / 'R').  Address ids count up in configuration order
     (as pool.rs address_id does for a single pool); host = 127.0.0.(10+id)."""
 
-    def __init__(self, shards, lb="random", hc=True, default_role="any", pool_size=2, ban_time=60, ps_cache=0):
+    def __init__(self, shards, lb="random", hc=True, default_role="any", pool_size=2, ban_time=60, ps_cache=0, stmt_to=STMT_TO):
         self.shards, self.lb, self.hc, self.default_role, self.pool_size, self.ban_time, self.ps_cache = shards, lb, hc, default_role, pool_size, ban_time, ps_cache
+        self.stmt_to = stmt_to    # only the self-test changes it (the oracle keeps assuming STMT_TO)
         self.addrs = []
         for s, roles in enumerate(shards):
             nr = 0
@@ -55,7 +56,7 @@ class Topo:
         sh = []
         for s, roles in enumerate(self.shards):
             sh.append({"database": "d%d" % s, "servers": [[a["name"], "primary" if a["role"] == "P" else "replica"] for a in self.addrs if a["shard"] == s]})
-        t = W.make_toml(general=general, pools={"db": {"opts": opts, "users": [{"username": "u", "password": "pw", "pool_size": self.pool_size, "statement_timeout": STMT_TO}], "shards": sh}})
+        t = W.make_toml(general=general, pools={"db": {"opts": opts, "users": [{"username": "u", "password": "pw", "pool_size": self.pool_size, "statement_timeout": self.stmt_to}], "shards": sh}})
         for a in self.addrs:
             t = t.replace('["127.0.0.1", @PORT:%s@' % a["name"], '["%s", @PORT:%s@' % (a["host"], a["name"]))
         return t
@@ -109,6 +110,48 @@ def outcome_options(mode, busy, flags=(), fresh_only=False):
     return o
 
 
+# ----------------------------------------------------------------------------- statement shapes under fault
+SHAPES = ["simple", "multi", "ext_parse", "ext_rows", "ext_sync", "copyin_G", "copyin_data", "copyin_done", "copyin_fail", "copyout"]
+FAULTS = ["hang", "mid", "die"]          # never answers / half of the reply then closes / closes without a reply
+SHAPE_WAIT = STMT_TO + 2000              # "within statement_timeout + slack"
+
+
+def shape_script(shape, fault, lab):
+    """One client transaction of the given shape whose server breaks at the point the shape names, on WHICHEVER
+    backend serves it (the fault rides on the statement text or on a message tag armed on every backend), so the
+    other candidate stays healthy for the ordinary transactions that follow.
+    Returns (arm_before, arm_after_G, phases): arm_* = (tags, kind) for the mock's fault_on, phases = client steps."""
+    D = {"hang": "hang", "mid": "rows=60, size=100, mid", "die": "sleep=120, close"}[fault]
+    K = {"hang": "hang", "mid": "mid", "die": "close"}[fault]
+    send = lambda msgs: {"op": "send", "msgs": msgs}
+    ext = lambda sql: [{"t": "P", "name": "", "sql": sql, "types": []}, {"t": "B", "portal": "", "name": "", "params": []}, {"t": "E", "portal": "", "max": 0}, {"t": "S"}]
+    copy_q = [send([{"t": "Q", "sql": "COPY t FROM STDIN /*%s*/" % lab}]), {"op": "recv", "until": "G", "timeout_ms": 2000}]
+    small = {"t": "d", "data": "1\tone\n"}
+    big = {"t": "d", "data": "x" * 4000 + "\n"}
+    if shape == "simple":
+        return None, None, [send([{"t": "Q", "sql": "SELECT 1 /*%s*/ /*mock: %s*/" % (lab, D)}])]
+    if shape == "multi":
+        return None, None, [send([{"t": "Q", "sql": "SELECT 1 /*%s*/; SELECT 2 /*mock: %s*/" % (lab, D)}])]
+    if shape == "ext_parse":       # before ParseComplete
+        return ("P", K), None, [send(ext("SELECT 1 /*%s*/" % lab))]
+    if shape == "ext_rows":        # at Execute: before / in the middle of the rows
+        return None, None, [send(ext("SELECT 1 /*%s*/ /*mock: %s*/" % (lab, D)))]
+    if shape == "ext_sync":        # rows and CommandComplete sent, before ReadyForQuery
+        return ("S", K), None, [send(ext("SELECT 1 /*%s*/" % lab))]
+    if shape == "copyin_G":        # right after CopyInResponse: whatever comes next is not answered
+        return None, ("dcf", K), copy_q + [send([small, small, {"t": "c"}])]
+    if shape == "copyin_data":     # while CopyData is streamed (pgcat forwards it in > 8 KB batches), CopyDone follows
+        return ("d", K), None, copy_q + [send([big, big, big]), {"op": "sleep", "ms": 40}, send([big, {"t": "c"}])]
+    if shape == "copyin_done":     # after CopyDone
+        return ("c", K), None, copy_q + [send([small, {"t": "c"}])]
+    if shape == "copyin_fail":     # after CopyFail
+        return ("f", K), None, copy_q + [send([small, {"t": "f", "msg": "client gives up"}])]
+    if shape == "copyout":         # in the middle of the CopyData stream of COPY .. TO STDOUT
+        d = {"hang": "rows=300, size=100, mid_hang", "mid": "rows=300, size=100, mid", "die": "sleep=120, close"}[fault]
+        return None, None, [send([{"t": "Q", "sql": "COPY t TO STDOUT /*%s*/ /*mock: %s*/" % (lab, d)}])]
+    raise ValueError(shape)
+
+
 # ----------------------------------------------------------------------------- scenario building
 def build(topo, hl, initial_modes=None, gap=6):
     """hl: list of high-level steps (dicts).  Returns the wire scenario; hl steps get 'k' (index)."""
@@ -152,12 +195,32 @@ def build(topo, hl, initial_modes=None, gap=6):
                 steps += [{"op": "send", "c": c, "msgs": [{"t": "Q", "sql": "SET SHARD TO '%d'" % s["shard"]}]}, {"op": "recv", "c": c, "until": "Z", "timeout_ms": 3000}]
             sql = s.get("sql", "SELECT 1") + " /*%s*/" % lab
             msgs = s.get("msgs") or [{"t": "Q", "sql": sql}]
-            if s.get("fate"):
+            if s.get("shape"):
+                arm0, arm1, phases = shape_script(s["shape"], s["fault"], lab)
+                arm = lambda a: [{"op": "backend", "b": x["name"], "fault_on": ({"tags": a[0], "kind": a[1]} if a else None)} for x in topo.addrs]
+                if arm0:
+                    steps += arm(arm0)
+                steps += [{"op": "bans", "label": lab + ":pre"}]
+                for ph in phases:
+                    ph = dict(ph)
+                    if ph["op"] in ("send", "recv"):
+                        ph["c"] = c
+                    steps.append(ph)
+                    if ph["op"] == "recv" and arm1:
+                        steps += arm(arm1)
+                if s.get("fate"):
+                    steps += ([{"op": "close", "c": c}] if s["fate"] == "close" else [{"op": "sleep", "ms": 30}, {"op": "close", "c": c, "rst": True}]) + [{"op": "sleep", "ms": s.get("settle", 480)}]
+                else:
+                    steps += [{"op": "recv", "c": c, "until": "Z", "timeout_ms": s.get("wait", SHAPE_WAIT), "label": lab}]
+                steps += [{"op": "bans", "label": lab + ":post"}] + arm(None)
+                if not s.get("fate"):
+                    steps += [{"op": "send", "c": c, "msgs": [{"t": "X"}]}]
+            elif s.get("fate"):
                 # the client goes away while its statement is in flight: closes right after sending, or resets
                 # its socket (SO_LINGER 0) 30 ms later; nothing is read.  The ban list is looked at after `settle` ms.
                 gone = [{"op": "close", "c": c}] if s["fate"] == "close" else [{"op": "sleep", "ms": 30}, {"op": "close", "c": c, "rst": True}]
                 steps += [{"op": "bans", "label": lab + ":pre"}, {"op": "send", "c": c, "msgs": msgs}] + gone + \
-                         [{"op": "sleep", "ms": s.get("settle", 650)}, {"op": "bans", "label": lab + ":post"}]
+                         [{"op": "sleep", "ms": s.get("settle", 480)}, {"op": "bans", "label": lab + ":post"}]
             else:
                 steps += [{"op": "bans", "label": lab + ":pre"}, {"op": "send", "c": c, "msgs": msgs},
                           {"op": "recv", "c": c, "until": "Z", "timeout_ms": s.get("wait", 5000), "label": lab}, {"op": "bans", "label": lab + ":post"}]
@@ -284,7 +347,15 @@ def gone_verdict(topo, s, ob, modes):
         ob["kind"], ob["arg"] = "refused", "(client gone; no backend logged the statement)"
         return
     m = modes[srv]
-    if m == "hang":
+    if s.get("shape"):
+        k = "KStmtTimeout" if s["fault"] == "hang" else "KRecv"
+        if s["shape"] == "copyout" and not any(topo.by_host[b["host"]]["name"] == srv for b in ob["post"] if b not in ob["pre"]):
+            # COPY TO STDOUT streams to the client in 8 KB pieces: with the client gone pgcat's write to the CLIENT may fail
+            # before it has read up to the point where the server breaks; then the server never failed as far as pgcat knows
+            k = None
+        if k == "KRecv" and s["shape"].startswith("copyin") and any(b["reason"] == "MessageSendFailed" and topo.by_host[b["host"]]["name"] == srv for b in ob["post"]):
+            k = "KSend"          # the session died while CopyData was still being forwarded: a later write failed instead of the read
+    elif m == "hang":
         k = "KStmtTimeout"
     elif s.get("kill") or m in ("close_mid_reply", "down"):
         k = "KRecv"
@@ -472,6 +543,9 @@ def random_schedule(rng, topo, nsteps):
                 s["fate"] = rng.choice(["close", "rst"])
             elif 0.10 <= y < 0.15:
                 s.update({"sql": "SELECT 1 /*mock: sleep=120*/", "fate": rng.choice(["close", "rst"])})
+            if s.get("fate"):
+                # nobody reads the reply: look at the ban list only after the slowest possible checkout + statement
+                s["settle"] = len(topo.addrs) * max(CONNECT_TO, HC_TO) + STMT_TO + 200
             if len(topo.shards) > 1:
                 s["shard"] = rng.choice([0, 1])
             hl.append(s)
@@ -568,7 +642,7 @@ def scripted(quick):
             for lb in (("random",) if quick else ("random", "loc")):
                 t = Topo([["P", "R", "R"]], hc=False, lb=lb)
                 hl = [] if fault == "dies-after-checkout" else [{"op": "mode", "b": "r1", "mode": fault}]
-                for rnd in range(3 if quick else 6):
+                for rnd in range(1 if quick else 6):
                     x = {"op": "txn", "role": "replica", "sql": KILL if fault == "dies-after-checkout" else SLOWQ}
                     if fault == "dies-after-checkout":
                         x["kill"] = True
@@ -576,6 +650,25 @@ def scripted(quick):
                         x["fate"] = fate
                     hl += [x, {"op": "showbans"}, {"op": "txn", "role": "replica"}, {"op": "txn", "role": "replica"}, {"op": "unban", "b": "r1"}, {"op": "unban", "b": "r2"}]
                 out.append(("client-%s-%s-%s" % (fate or "stays", fault, lb), t, hl, None))
+    # statement shape x fault kind x client fate: every point where the client task waits for the server
+    # (simple / multi-statement query, extended batch before ParseComplete / at the rows / before ReadyForQuery,
+    # COPY FROM STDIN after CopyInResponse / during CopyData / after CopyDone / after CopyFail, COPY TO STDOUT mid stream)
+    for shape in SHAPES:
+        for fault in FAULTS:
+            t = Topo([["P", "R", "R"]], hc=False, lb="random" if (SHAPES.index(shape) + FAULTS.index(fault)) % 2 == 0 else "loc")
+            if os.environ.get("VERIF_C07_SELFTEST_COPY_UNDETECTED") and shape in ("copyin_done", "copyin_fail"):
+                # self-test: behave like an implementation whose wait for the reply to CopyDone / CopyFail has no statement
+                # timeout (statement_timeout = 0 for this pool; the oracle is not told)
+                t = Topo([["P", "R", "R"]], hc=False, lb=t.lb, stmt_to=0)
+            hl = []
+            for fate in (None, "close", "rst"):
+                x = {"op": "txn", "role": "replica", "shape": shape, "fault": fault, "kill": True}
+                if fate:
+                    x["fate"] = fate
+                hl += [x, {"op": "showbans"}, {"op": "txn", "role": "replica"}, {"op": "txn", "role": "replica"}, {"op": "unban", "b": "r1"}, {"op": "unban", "b": "r2"}]
+            for _ in range(0 if quick else 2):
+                hl += [dict(x) for x in hl[:18]]
+            out.append(("shape-%s-%s" % (shape, fault), t, hl, None))
     # two shards: bans and the all-banned reset are per shard
     t = Topo([["P", "R", "R"], ["P", "R", "R"]], hc=True)
     hl = [{"op": "mode", "b": "r1", "mode": "down"}, {"op": "mode", "b": "r2", "mode": "down"}] + \
@@ -679,6 +772,9 @@ def run_and_check(run, col, wire, cases, stats, label, workers=16):
                 ob = observe_txn(topo, s, w)
                 if s.get("fate"):
                     gone_verdict(topo, s, ob, m)
+                elif s.get("shape") and ob["kind"] == "closed_silent" and ob["stmt_at"] and \
+                        any(b["reason"] == "MessageSendFailed" and topo.by_host[b["host"]]["name"] == ob["stmt_at"] for b in ob["post"] if b not in ob["pre"]):
+                    ob["kind"], ob["arg"] = "exec", "KSend"   # client.rs:2052: a failed write to the server bans and ends the client task without a message
                 st = {"s": s, "ob": ob, "modes": m}
                 info["steps"].append(st)
                 if ob["kind"] in ("ok", "ok_err", "exec", "refused"):
@@ -709,7 +805,7 @@ def run_and_check(run, col, wire, cases, stats, label, workers=16):
                         o = ("AdminBan_ %d %d %d" % (h, s["secs"], now)) if s["op"] == "ban" else ("AdminUnban %d" % h)
                         exprs.append("tie_step %s %s (%s)" % (topo.coq_cfg(), coq_bl(topo, pre), o))
                         where.append((ci, len(info["steps"]) - 1))
-    vals = vlib.coq_eval("c07_" + label, PREAMBLE, exprs, shard=60) if exprs else []
+    vals = vlib.coq_eval("c07_" + label, PREAMBLE, exprs, shard=max(40, (len(exprs) + 15) // 16)) if exprs else []
     model = {}
     for (ci, si), e, v in zip(where, exprs, vals):
         model.setdefault((ci, si), []).append((e, v))
@@ -720,7 +816,7 @@ def run_and_check(run, col, wire, cases, stats, label, workers=16):
         prev_post = None
         for si, st in enumerate(info["steps"]):
             s = st["s"]
-            replay = {"case": cid, "topology": {"shards": topo.shards, "lb": topo.lb, "healthcheck": topo.hc, "default_role": topo.default_role, "pool_size": topo.pool_size, "ban_time": topo.ban_time, "ps_cache": topo.ps_cache},
+            replay = {"case": cid, "topology": {"shards": topo.shards, "lb": topo.lb, "healthcheck": topo.hc, "default_role": topo.default_role, "pool_size": topo.pool_size, "ban_time": topo.ban_time, "ps_cache": topo.ps_cache, "stmt_to": topo.stmt_to},
                       "schedule": [{k: v for k, v in x.items() if k != "k"} for x in hl], "initial_modes": init, "step": s["k"]}
             pre = st["pre"] if st.get("admin") else st["ob"]["pre"]
             post = st["post"] if st.get("admin") else st["ob"]["post"]
@@ -741,6 +837,9 @@ def run_and_check(run, col, wire, cases, stats, label, workers=16):
             fk = "%s/%s" % (s.get("fate", "stays"), ob["arg"] if ob["kind"] == "exec" else ob["kind"])
             if s.get("fate") or s.get("kill"):
                 stats["client_fates"][fk] = stats["client_fates"].get(fk, 0) + 1
+            if s.get("shape"):
+                sk = "%s/%s/%s" % (s["shape"], s["fault"], s.get("fate", "stays"))
+                stats["shapes"][sk] = "%s %s" % (ob["kind"], ob["arg"]) + ("" if ob["kind"] != "exec" or s.get("fate") else " after %d ms" % (ob["t1"] - ob["t0"]))
             if s.get("fate") and ob["kind"] == "refused":
                 # the statement went into a dead socket of a server that had refused connections: nothing to compare
                 fl = st["modes"].get("#flags", {})
@@ -758,7 +857,8 @@ def run_and_check(run, col, wire, cases, stats, label, workers=16):
                 if s["expect"] == "blocked" or ob["kind"] == "blocked":
                     continue
             elif ob["kind"] == "blocked":
-                bad.append("the client got no answer within %d ms" % s.get("wait", 5000))
+                bad.append("the client got no answer within %d ms%s" % (s.get("wait", SHAPE_WAIT if s.get("shape") else 5000),
+                           (" (statement_timeout %d ms + 2 s): the server broke at '%s' (%s) and this wait of the client task is not bounded" % (STMT_TO, s["shape"], s["fault"])) if s.get("shape") else ""))
             for b in bad:
                 stats["monitor_failures"] += 1
                 col.violation("counterexample", "%s step %d: %s" % (cid, s["k"], b), dict(replay, observed=slim(ob), modes=st["modes"]))
@@ -870,7 +970,7 @@ def check_site(run, col, s, ob, replay, stats):
 
 def new_stats():
     return {"steps": 0, "evaluations": 0, "validated": 0, "set_valued": 0, "allowed_sizes": [], "txn_kinds": {}, "distinct": set(), "monitor_failures": 0, "violations": 0,
-            "harness_errors": 0, "unmodelled": {}, "samples": [], "admin_steps": 0, "unban_events": 0, "silent_failovers": 0, "sites": {}, "observed": {}, "client_fates": {}, "unobservable": 0, "obs_primary_ban_row": 0, "obs_showbans_hides_due": 0}
+            "harness_errors": 0, "unmodelled": {}, "samples": [], "admin_steps": 0, "unban_events": 0, "silent_failovers": 0, "sites": {}, "observed": {}, "client_fates": {}, "shapes": {}, "unobservable": 0, "obs_primary_ban_row": 0, "obs_showbans_hides_due": 0}
 
 
 def check(run):
@@ -974,6 +1074,7 @@ def check(run):
     run.cov["client_outcomes"] = stats["txn_kinds"]
     run.cov["client_fate_x_statement_outcome"] = stats["client_fates"]
     run.cov["unobservable_steps"] = stats["unobservable"]
+    run.cov["statement_shape_x_fault_x_client_fate"] = stats["shapes"]
     # the RST fate is only meaningful if pgcat's write of the error to that client really fails
     wf = sum(sum(1 for r in (info["res"].get("task_results") or []) if "Error writing to socket" in r) for info in per_case if "error" not in info)
     run.cov["client_write_failures_observed"] = wf
@@ -1013,7 +1114,7 @@ def replay(run, path):
     if not ok:
         print("harness does not build"); return 2
     tp = r["topology"]
-    topo = Topo(tp["shards"], lb=tp["lb"], hc=tp["healthcheck"], default_role=tp.get("default_role", "any"), pool_size=tp.get("pool_size", 2), ban_time=tp.get("ban_time", 60), ps_cache=tp.get("ps_cache", 0))
+    topo = Topo(tp["shards"], lb=tp["lb"], hc=tp["healthcheck"], default_role=tp.get("default_role", "any"), pool_size=tp.get("pool_size", 2), ban_time=tp.get("ban_time", 60), ps_cache=tp.get("ps_cache", 0), stmt_to=tp.get("stmt_to", STMT_TO))
     hl = [dict(x) for x in r["schedule"]]
     stats = new_stats()
     col = Col()
